@@ -1,0 +1,89 @@
+//go:build verif
+
+// Contracts for the verification machinery in /verif (govc). Comment-only.
+
+package log
+
+// Logging entry points seen from other packages: they touch only the logger's own
+// state (frame assumption; the functions themselves are under contract for C20).
+//@ func (*ContextTracer).Submit
+//@   trusted
+//@   pure
+//@ func (*ContextTracer).Trace
+//@   trusted
+//@   pure
+//@ func (*ContextTracer).Tracef
+//@   trusted
+//@   pure
+//@ func (*ContextTracer).Debug
+//@   trusted
+//@   pure
+//@ func (*ContextTracer).Debugf
+//@   trusted
+//@   pure
+//@ func (*ContextTracer).Info
+//@   trusted
+//@   pure
+//@ func (*ContextTracer).Infof
+//@   trusted
+//@   pure
+//@ func (*ContextTracer).Warning
+//@   trusted
+//@   pure
+//@ func (*ContextTracer).Warningf
+//@   trusted
+//@   pure
+//@ func (*ContextTracer).Error
+//@   trusted
+//@   pure
+//@ func (*ContextTracer).Errorf
+//@   trusted
+//@   pure
+//@ func (*ContextTracer).Critical
+//@   trusted
+//@   pure
+//@ func (*ContextTracer).Criticalf
+//@   trusted
+//@   pure
+//@ func Trace
+//@   trusted
+//@   pure
+//@ func Tracef
+//@   trusted
+//@   pure
+//@ func Debug
+//@   trusted
+//@   pure
+//@ func Debugf
+//@   trusted
+//@   pure
+//@ func Info
+//@   trusted
+//@   pure
+//@ func Infof
+//@   trusted
+//@   pure
+//@ func Warning
+//@   trusted
+//@   pure
+//@ func Warningf
+//@   trusted
+//@   pure
+//@ func Error
+//@   trusted
+//@   pure
+//@ func Errorf
+//@   trusted
+//@   pure
+//@ func Critical
+//@   trusted
+//@   pure
+//@ func Criticalf
+//@   trusted
+//@   pure
+//@ func Tracer
+//@   trusted
+//@   pure
+//@ func AddTracer
+//@   trusted
+//@   pure
